@@ -223,9 +223,9 @@ func runPipe(src, dst net.Conn, rng *hutil.Rng) *pipeDir {
 	go func() {
 		defer close(p.done)
 		buf := make([]byte, 16384)
-		// the handshake message goes through in one piece: Handshake.ReadFrom takes whatever one Read returns for the
-		// whole message (no io.ReadFull), so a handshake that arrives in two pieces is misread - a weakness of the
-		// handshake reader under TCP segmentation that is not the subject of these rounds (reported separately)
+		// the handshake message (u32le length || body) is forwarded in up to three pieces with pauses in between, the way
+		// TCP may deliver it: the handshake reader must assemble it (finding C14-handshake-short-read: Handshake.ReadFrom
+		// took whatever one Read returned for the whole message)
 		if _, err := io.ReadFull(src, buf[:4]); err != nil {
 			dst.Close()
 			return
@@ -239,9 +239,22 @@ func runPipe(src, dst net.Conn, rng *hutil.Rng) *pipeDir {
 			return
 		}
 		p.feed(buf[:4+hl])
-		if _, err := dst.Write(buf[:4+hl]); err != nil {
-			src.Close()
-			return
+		cuts := []int{0, 4 + hl}
+		for i := rng.Intn(3); i > 0; i-- {
+			cuts = append(cuts, 1+rng.Intn(4+hl-1))
+		}
+		sort.Ints(cuts)
+		for i := 0; i+1 < len(cuts); i++ {
+			if cuts[i] == cuts[i+1] {
+				continue
+			}
+			if _, err := dst.Write(buf[cuts[i]:cuts[i+1]]); err != nil {
+				src.Close()
+				return
+			}
+			if cuts[i+1] < 4+hl {
+				time.Sleep(time.Duration(1+rng.Intn(4)) * time.Millisecond)
+			}
 		}
 		k := 0
 		for {
@@ -342,8 +355,10 @@ func (w *hworker) run(sp hspec) (res hresult) {
 			var c *p2p.Connection
 			select {
 			case c = <-n.p.NewConnections:
-			case <-time.After(hammerTimeout):
-				fatal("hammer round %d: NewConnections did not fire", sp.no)
+			case <-time.After(hammerTimeout / 3):
+				// the handshake never completed on this side (a handshake misread, for instance): nothing is sent; the
+				// round is recorded with this side not alive
+				return
 			}
 			// every sender at once: the peer-list goroutine of this side is starting right now
 			var wg sync.WaitGroup
